@@ -183,3 +183,27 @@ def file_args(src):
 
 def flag(name):
     return N.ProgramData.do(N.ProgramFlag[name])
+
+
+def compile_cli(src, argv=(), name="p", timeout=120):
+    """the real command line: `python $REPO/nmfu.py <argv> <name>.nmfu` in a fresh directory (source written as bytes, latin-1).
+    -> (exit code, header text or None, source text or None, stderr tail).  Used to bind compile_source() to what main() really does."""
+    import subprocess, tempfile, shutil
+    d = tempfile.mkdtemp(prefix="nvcli", dir=os.environ.get("NV_SCRATCH", "/dev/shm") if os.path.isdir(os.environ.get("NV_SCRATCH", "/dev/shm")) else None)
+    try:
+        fn = os.path.join(d, name + ".nmfu")
+        with open(fn, "wb") as f:
+            f.write(src.encode("utf-8"))
+        env = dict(os.environ)
+        env["PYTHONHASHSEED"] = "0"
+        try:
+            r = subprocess.run([sys.executable, os.path.join(REPO, "nmfu.py"), *argv, fn], cwd=d, capture_output=True, text=True, timeout=timeout, env=env)
+        except subprocess.TimeoutExpired:
+            return (-9, None, None, "timeout")
+        outs = {}
+        for ext in ("h", "c"):
+            fo = [x for x in os.listdir(d) if x.endswith("." + ext)]
+            outs[ext] = open(os.path.join(d, fo[0]), encoding="utf-8", errors="surrogateescape").read() if len(fo) == 1 else None
+        return (r.returncode, outs["h"], outs["c"], (r.stdout + r.stderr)[-400:])
+    finally:
+        shutil.rmtree(d, ignore_errors=True)
